@@ -190,7 +190,13 @@ func c03Data(spacing string) []core.SeriesSpec {
 		}
 		b := core.SeriesSpec{L: `a{l="1"}`, S: pts(p(100000, 1), p(160000, 3))}
 		single := core.SeriesSpec{L: `a{l="2"}`, S: pts(p(300000, 42))}
-		return []core.SeriesSpec{a, b, single}
+		// infinities of both signs (and NaN) next to each other
+		ext := core.SeriesSpec{L: `a{l="3"}`}
+		ev := []float64{1, math.Inf(1), math.Inf(-1), 2, math.Inf(-1), math.Inf(-1), 3, math.NaN(), math.Inf(1), 4, math.Inf(1), math.Inf(1), 1e300, -1e300, 5}
+		for i := 0; i < 45; i++ {
+			ext.S = append(ext.S, p(int64(i)*20000, ev[i%len(ev)]))
+		}
+		return []core.SeriesSpec{a, b, single, ext}
 	}
 	return nil
 }
